@@ -78,6 +78,44 @@ class BModel(Core.Model):
             self.complete()
 
 
+GLOBAL_SHIFT = [0]
+
+
+class ShiftRec(Collector):
+    def collect(self):
+        self.records.append((self.model.a, GLOBAL_SHIFT[0], self.model.systems.timestep))
+
+
+class ShiftModel(Core.Model):
+    """Reads module-level state: a worker forked before that state changed would answer from the old value."""
+
+    def __init__(self, a):
+        super().__init__(seed=1)
+        self.a = a
+        self.systems.add_system(ShiftRec('c', self))
+
+
+def pool_reuse_case(case):
+    """Consecutive batch runs in one process on the REAL multiprocessing.Pool; module-level state changes in between.
+    Every batch must consist of its own executions' records, for every process count."""
+    reset_library()
+    outs = []
+    for step, (shift, procs) in enumerate(case['sequence']):
+        GLOBAL_SHIFT[0] = shift
+        got = Batching.batch_run(ShiftModel, {'a': [1, 2, 3]}, collectors='c', processes=procs, max_timesteps=2)
+        exp = [[(a, shift, 0), (a, shift, 1)] for a in (1, 2, 3)]
+        if sorted(map(repr, got)) != sorted(map(repr, exp)):
+            raise Violation(f'batch {step} of the sequence {case["sequence"]} (processes={procs}) returned records that '
+                            f'are not those of its own executions', expected=exp, observed=got)
+        outs.append(repr(got))
+    return tuple(outs)
+
+
+def pool_reuse_cases():
+    for procs_seq in ((2, 2, 2), (2, 3, 2), (1, 2, 1), (3, 3, 1)):
+        yield {'leg': 'pool_reuse', 'sequence': [[10 * (i + 1), p] for i, p in enumerate(procs_seq)]}
+
+
 def ref_records(cid, a, b, life, limit):
     steps = max(0, min(life, limit))
     return [(cid, a, b, t, t + 1) for t in range(steps)]
@@ -312,6 +350,15 @@ def run(ctx):
     for c in (cases[7], sc[len(sc) // 2], fc[-1]):
         ctx.sample(c)
     if not ctx.violations:
+        for case in pool_reuse_cases():
+            ctx.traces += 1
+            ctx.transitions += 3
+            try:
+                ctx.outcome(hbfs._guard(pool_reuse_case, case))
+            except Violation as v:
+                ctx.report(case, v)
+        ctx.leg('pool_reuse_real_pool', sequences=4)
+    if not ctx.violations:
         conformance(ctx)
 
 
@@ -322,6 +369,9 @@ def replay(case):
         except AttributeError:
             return
         raise Violation('collectors=34 was accepted', expected='AttributeError')
+    if case['leg'] == 'pool_reuse':
+        hbfs._guard(pool_reuse_case, case)
+        return
     if case['leg'] == 'conformance':
         raise Violation('conformance cases are not replayable deterministically (real OS scheduling)')
     hbfs._guard(run_batch, case, None)
